@@ -461,8 +461,10 @@ class H2Protocol:
     def _refuse_stream(self, stream_id: int, error_code: h2.errors.ErrorCodes) -> None:
         try:
             self.connection.reset_stream(stream_id, error_code)
-        except h2.exceptions.StreamClosedError:
-            pass  # The client has reset it itself (further on in the same read)
+        except (h2.exceptions.StreamClosedError, h2.exceptions.ProtocolError):
+            # The client has reset it itself, or has closed the whole
+            # connection with a GOAWAY (further on in the same read)
+            pass
 
     async def _flush(self) -> None:
         data = self.connection.data_to_send() + self.goaway
